@@ -106,6 +106,7 @@ pub uninterp spec fn fcmp(a: f64, b: f64) -> Option<Ordering>;   // IEEE partial
 pub uninterp spec fn i2f(a: int) -> f64;                 // `as f64` on an integer (round to nearest)
 
 pub open spec fn smap_nonempty(m: vstd::map::Map<SKey, SVal>) -> bool { exists|k: SKey| m.contains_key(k) }
+#[verifier::opaque]
 pub open spec fn truthy(v: SVal) -> bool {
     match v {
         SVal::List(l) => l.len() != 0,
@@ -135,6 +136,7 @@ pub open spec fn is_num(v: SVal) -> bool { v is Int || v is UInt || v is Float }
 
 // ---- arithmetic (property C08): exact or overflow; mixed numeric kinds are an error ----
 
+#[verifier::opaque]
 pub open spec fn add_spec(l: SVal, r: SVal) -> SRes {
     match (l, r) {
         (SVal::Int(a), SVal::Int(b)) => if in_i64(a + b) { Ok(SVal::Int(a + b)) } else { Err(ErrClass::Overflow) },
@@ -149,6 +151,7 @@ pub open spec fn add_spec(l: SVal, r: SVal) -> SRes {
         _ => Err(ErrClass::UnsupportedBinary),
     }
 }
+#[verifier::opaque]
 pub open spec fn sub_spec(l: SVal, r: SVal) -> SRes {
     match (l, r) {
         (SVal::Int(a), SVal::Int(b)) => if in_i64(a - b) { Ok(SVal::Int(a - b)) } else { Err(ErrClass::Overflow) },
@@ -160,6 +163,7 @@ pub open spec fn sub_spec(l: SVal, r: SVal) -> SRes {
         _ => Err(ErrClass::UnsupportedBinary),
     }
 }
+#[verifier::opaque]
 pub open spec fn mul_spec(l: SVal, r: SVal) -> SRes {
     match (l, r) {
         (SVal::Int(a), SVal::Int(b)) => if in_i64(a * b) { Ok(SVal::Int(a * b)) } else { Err(ErrClass::Overflow) },
@@ -168,6 +172,7 @@ pub open spec fn mul_spec(l: SVal, r: SVal) -> SRes {
         _ => Err(ErrClass::UnsupportedBinary),
     }
 }
+#[verifier::opaque]
 pub open spec fn div_spec(l: SVal, r: SVal) -> SRes {
     match (l, r) {
         (SVal::Int(a), SVal::Int(b)) => if b == 0 { Err(ErrClass::DivZero) } else if in_i64(tdiv(a, b)) { Ok(SVal::Int(tdiv(a, b))) } else { Err(ErrClass::Overflow) },
@@ -176,6 +181,7 @@ pub open spec fn div_spec(l: SVal, r: SVal) -> SRes {
         _ => Err(ErrClass::UnsupportedBinary),
     }
 }
+#[verifier::opaque]
 pub open spec fn rem_spec(l: SVal, r: SVal) -> SRes {
     match (l, r) {
         // the remainder of the most negative int by -1 also counts as overflow (as in cel-go)
@@ -184,6 +190,7 @@ pub open spec fn rem_spec(l: SVal, r: SVal) -> SRes {
         _ => Err(ErrClass::UnsupportedBinary),
     }
 }
+#[verifier::opaque]
 pub open spec fn neg_spec(v: SVal) -> SRes {
     match v {
         SVal::Int(i) => if i == i64::MIN { Err(ErrClass::Overflow) } else { Ok(SVal::Int(-i)) },
@@ -224,5 +231,33 @@ pub proof fn lemma_amap_get(m: vstd::map::Map<Key, Value>, k: Key)
             let k2 = choose|k2: Key| m.dom().contains(k2) && kview(k2) == kview(k);
             lemma_kview_injective(k2, k);
         }
+    }
+}
+
+pub proof fn lemma_vlist_len(l: Seq<Value>)
+    ensures vlist(l).len() == l.len()
+{ }
+pub proof fn lemma_vlist_index(l: Seq<Value>, i: int)
+    requires 0 <= i < l.len()
+    ensures vlist(l).len() == l.len(), vlist(l)[i] == vview(l[i])
+{ }
+pub proof fn lemma_vlist_push(l: Seq<Value>, v: Value)
+    ensures vlist(l.push(v)) =~= vlist(l).push(vview(v))
+{ }
+pub proof fn lemma_vlist_empty()
+    ensures vlist(Seq::<Value>::empty()) =~= Seq::<SVal>::empty()
+{ }
+/// abstract key set = image of the concrete key set
+pub proof fn lemma_amap_dom(m: vstd::map::Map<Key, Value>, sk: SKey)
+    ensures amap(m).contains_key(sk) <==> exists|k: Key| m.contains_key(k) && kview(k) == sk
+{
+    if amap(m).contains_key(sk) {
+        let k2 = choose|k2: Key| m.dom().contains(k2) && kview(k2) == sk;
+        assert(m.contains_key(k2));
+    }
+    if exists|k: Key| m.contains_key(k) && kview(k) == sk {
+        let k = choose|k: Key| m.contains_key(k) && kview(k) == sk;
+        assert(m.dom().contains(k));
+        assert(m.dom().map(|k: Key| kview(k)).contains(kview(k)));
     }
 }
